@@ -105,8 +105,8 @@ CmpHolds(op, c) ==
 
 \* The binary operators on scalars.
 Bin(op, a, b) ==
-  IF a.k = "e" THEN a                       \* the left-most error, unchanged
-  ELSE IF b.k = "e" THEN b
+  IF a.k \in {"e", "any"} THEN a            \* the left-most error, unchanged
+  ELSE IF b.k \in {"e", "any"} THEN b         \* ("any": one of several error values)
   ELSE IF op \in ArithOps THEN
      (LET x == Coerce(a)
           y == Coerce(b)
@@ -115,7 +115,7 @@ Bin(op, a, b) ==
   ELSE Bool(CmpHolds(op, Cmp3(a, b)))
 
 Un(op, a) ==
-  IF a.k = "e" THEN a
+  IF a.k \in {"e", "any"} THEN a
   ELSE IF op = "u+" THEN (IF a.k = "z" THEN Zero ELSE a)   \* unary plus leaves its operand as it is
   ELSE LET x == Coerce(a)
        IN IF x.k = "e" THEN x
